@@ -15,7 +15,8 @@ def sendStepP (s : Sess) : Option Sess :=
     | [] => if s.qClosed then some { s with sendPc := .quitting .enter } else none
     | x :: rest => if x = [] then some { s with q := rest } else some { s with q := rest, sendPc := .writing x }
   | .writing x =>
-    if s.wfault || s.peerClosed || s.closes != 0 then some { s with sendPc := .quitting .enter }
+    if s.wfault || s.peerClosed || s.closes != 0 then
+      some { s with sendPc := .quitting .enter, delivered := s.delivered ++ partialWrite s x }
     else if s.peerDrain then some { s with sendPc := .idle, delivered := s.delivered ++ x }
     else none
   | .quitting .enter =>
@@ -135,6 +136,7 @@ theorem sinv_env {s : Sess} (h : SInv s) (e : Env) : SInv (envStep s e) := by
     · rename_i hr; exact sinv_recv_enter h' hr true true
     · exact ⟨h1, h2, h3, h4, h5, h6, h7, h8, h9⟩
   case writeFail => exact ⟨h1, h2, h3, h4, h5, h6, h7, h8, h9⟩
+  case writeFailAfter n => split <;> exact ⟨h1, h2, h3, h4, h5, h6, h7, h8, h9⟩
 
 /-- the send loop moves among idle / writing / `quitting enter` (queue and delivered bytes may change) -/
 theorem sinv_send_move {s : Sess} (h : SInv s) (hold : ∀ st, s.sendPc = .quitting st → st = .enter) (_hnd : s.sendPc ≠ .done)
@@ -176,7 +178,7 @@ theorem sinv_sendStepP {s s' : Sess} (h : SInv s) (hs : sendStepP s = some s') :
     have hnd : s.sendPc ≠ .done := by rw [hp]; simp
     simp only [hp] at hs
     split at hs
-    · cases hs; exact sinv_send_move h' hold hnd _ (by intro st e; cases e; rfl) (by simp) s.q s.delivered
+    · cases hs; exact sinv_send_move h' hold hnd _ (by intro st e; cases e; rfl) (by simp) s.q _
     · split at hs
       · cases hs; exact sinv_send_move h' hold hnd _ (by intro st e; cases e) (by simp) s.q _
       · cases hs
